@@ -322,6 +322,8 @@ def _norm(x):
         return int(x)
     if hasattr(x, "tzinfo"):
         return ("t", us_of(x))
+    if isinstance(x, dict) and "__us__" in x:
+        return ("t", x["__us__"])
     if isinstance(x, dict):
         return {k: _norm(v) for k, v in sorted(x.items()) if k not in ("stamped", "dt")}
     if isinstance(x, (list, tuple)):
